@@ -350,7 +350,8 @@ class Analysis:
         if co.id not in cache:
             from .inline import inlined, module_private_helpers
             base = module_private_helpers(co)
-            cache[co.id] = inlined(self.prog, co, lambda cb: not cb.raw.get("coroutine") and base(cb))
+            # (the function that turns a reply frame into a Subsystem value is an anchor of C04's rules and stays a call)
+            cache[co.id] = inlined(self.prog, co, lambda cb: not cb.raw.get("coroutine") and base(cb) and "client::Subsystem" not in cb.local_ty(0))
         return cache[co.id]
 
     def info(self, body):
